@@ -114,6 +114,14 @@ def run_schedule(cfg: dict[str, typing.Any], policy: tuple[typing.Any, ...]) -> 
                     owner[s_idx] = t  # first use after the dial: the dialling thread owns it
                 elif o != t:
                     out["violations"].append(("socket-used-by-non-owner", {"socket": s_idx, "owner": o, "user": t, "event": kind}))
+            elif kind == "shutdown":
+                # a response that has given its connection back has no say over it any more: a (late) shutdown() reaching
+                # a socket that another request has checked out breaks that request
+                s_idx = ev[2]
+                t = who()
+                o = owner.get(s_idx, "unset")
+                if o not in ("unset", None) and o != t:
+                    out["violations"].append(("socket-used-by-non-owner", {"socket": s_idx, "owner": o, "user": t, "event": "shutdown"}))
 
         net.on_event = on_event
 
@@ -133,7 +141,17 @@ def run_schedule(cfg: dict[str, typing.Any], policy: tuple[typing.Any, ...]) -> 
                     rid = f"w{i}r{k}"
                     try:
                         p = box["pool"]
-                        if cfg.get("explicit_release"):
+                        if cfg.get("watchdog"):
+                            # a watchdog that fires late: shutdown() ("unblock a read from another thread") of a response
+                            # that was read and released a moment ago
+                            r = p.urlopen("GET", "/" + rid, preload_content=False)
+                            body = r.read()
+                            r.release_conn()
+                            try:
+                                r.shutdown()
+                            except ValueError:
+                                pass
+                        elif cfg.get("explicit_release"):
                             # the caller keeps the connection (release_conn=False) although the body is preloaded, and
                             # hands it back itself
                             r = p.urlopen("GET", "/" + rid, release_conn=False)
@@ -433,6 +451,9 @@ def configs(ctx: Ctx) -> list[dict[str, typing.Any]]:
     for maxsize in (1, 2):
         for block in (True, False):
             out.append({"workers": 2, "reqs": 2, "maxsize": maxsize, "block": block, "closer": False, "fail_first": 0, "fail_kind": "503", "preload": True, "explicit_release": True})
+    for maxsize in (1, 2):
+        for block in (True, False):
+            out.append({"workers": 2, "reqs": 2, "maxsize": maxsize, "block": block, "closer": False, "fail_first": 0, "fail_kind": "503", "preload": False, "watchdog": True})
     # a body-less retry status / redirect as the first answer(s): the follow-up attempt needs the slot the first one used
     for workers in (2,):
         for maxsize in (1, 2):
